@@ -15,8 +15,19 @@
 (*                      other: it leaves every group of the store as it was, later    *)
 (*                      retrievals and renderings are unchanged, and asking again     *)
 (*                      fails the same way.                                           *)
-(*   MutateHeld(i, op)  the caller appends 99 to / pops the last element from the     *)
-(*                      i-th list it was given                                        *)
+(*   GetNames(grp)      <holder of grp>.GetSeriesList(): the ordered list of series   *)
+(*                      names that GenerateCSVtext takes its columns from.  A read;   *)
+(*                      the list handed out belongs to the caller (modelled by the    *)
+(*                      positions 1..n of its entries).                               *)
+(*   MutateHeld(i, op)  the caller appends an element to / pops the last element from *)
+(*                      / reverses in place (same length, other order) the i-th list  *)
+(*                      it was given - a list of values from Get or a list of names   *)
+(*                      from GetNames.  Whatever the caller does to it, later         *)
+(*                      retrievals and renderings are those of the stored series.     *)
+(*   Replace(old, new)  holder["new"] = holder.pop("old") on the main group: the      *)
+(*                      stored results are edited, the NUMBER of series stays the     *)
+(*                      same.  Not a read.  Renderings afterwards are renderings of   *)
+(*                      the series stored then.                                       *)
 (*   SetSuppress(b)     Model.TimeSeriesSupressTimeZero = b                           *)
 (*   SetCutoff(c)       Model.TimeSeriesCutoff = c              c = NoCut: None       *)
 (*   SetMaxTime(n)      Model.MaxTime = n.  The horizon of the *next* run; it says nothing     *)
@@ -60,6 +71,9 @@ CONSTANTS
     MaxHist,        \* bound on the number of calls in a history
     ExtNames,       \* series that Extend may lengthen ({} = the store keeps its shape)
     MaxTimes,       \* values SetMaxTime may assign ({} = Model.MaxTime keeps its default)
+    NGroups,        \* groups GetNames may list
+    MutOps,         \* what MutateHeld may do: subset of {"append", "pop", "reverse"}
+    Renames,        \* set of << old, new >> for Replace
     AsFound_AliasWhenNoCutoff,
     AsFound_PopOnStore,
     AsFound_BaseCsvDropsT
@@ -101,8 +115,17 @@ GetOp(st, dflt, sup, grp, name, carg) ==
          c     |-> c,
          pre   |-> s,
          vals  |-> vals,
-         entry |-> [grp |-> grp, name |-> name, alias |-> alias /\ ok,
+         entry |-> [kind |-> "vals", grp |-> grp, name |-> name, alias |-> alias /\ ok,
                     vals |-> IF alias /\ ok THEN << >> ELSE vals] ]
+
+(* TimeSeriesHolder.GetSeriesList: a new list every time; its n entries are modelled by 1..n *)
+NamesEntry(st, grp) ==
+    [kind |-> "names", grp |-> grp, name |-> "", alias |-> FALSE,
+     vals |-> [i \in 1..Cardinality(DOMAIN st[grp]) |-> i]]
+
+(* holder[new] = holder.pop(old) *)
+ReplaceOp(h, old, new) ==
+    [n \in (DOMAIN h \ {old}) \cup {new} |-> IF n = new THEN h[old] ELSE h[n]]
 
 (* value of a list in the caller's hands: an alias *is* the stored list *)
 HeldVal(st, h) == IF h.alias THEN st[h.grp][h.name] ELSE h.vals
@@ -110,7 +133,9 @@ HeldVal(st, h) == IF h.alias THEN st[h.grp][h.name] ELSE h.vals
 MutateOp(st, hd, i, op) ==
     LET h   == hd[i]
         cur == HeldVal(st, h)
-        new == IF op = "append" THEN Append(cur, Sentinel) ELSE SubSeq(cur, 1, Len(cur) - 1)
+        new == CASE op = "append"  -> Append(cur, Sentinel)
+                 [] op = "pop"     -> SubSeq(cur, 1, Len(cur) - 1)
+                 [] op = "reverse" -> [k \in 1..Len(cur) |-> cur[Len(cur) + 1 - k]]
     IN [ store |-> IF h.alias THEN [st EXCEPT ![h.grp][h.name] = new] ELSE st,
          held  |-> IF h.alias THEN hd ELSE [hd EXCEPT ![i].vals = new] ]
 
@@ -139,7 +164,7 @@ BaseCsvOp(vl) ==
 
 ----------------------------------------------------------------------------
 VARIABLES store,     \* group -> holder: EquationSolver.TimeSeries / .TimeSeriesStepTrace / .TimeSeriesInitialSteadyState
-          held,      \* lists handed to the caller: [grp, name, alias, vals]
+          held,      \* lists handed to the caller: [kind, grp, name, alias, vals]
           cutoff,    \* Model.TimeSeriesCutoff (NoCut = None)
           suppress,  \* Model.TimeSeriesSupressTimeZero
           varlist,   \* BaseSolver.VariableList
@@ -188,6 +213,21 @@ MutateHeld(i, op) ==
     /\ hist' = Append(hist, Call("MutateHeld", "", "", NoCut, i, op, FALSE, ""))
     /\ UNCHANGED << cutoff, suppress, varlist, gets, texts, maxtime, vl0 >>
 
+GetNames(grp) ==
+    /\ Len(hist) < MaxHist
+    /\ held' = Append(held, NamesEntry(store, grp))
+    /\ last' = [NoLast EXCEPT !.ev = "GetNames"]
+    /\ hist' = Append(hist, Call("GetNames", grp, "", NoCut, 0, "", FALSE, ""))
+    /\ UNCHANGED << store, cutoff, suppress, varlist, gets, texts, maxtime, vl0 >>
+
+Replace(old, new) ==
+    /\ Len(hist) < MaxHist
+    /\ old \in DOMAIN store["main"] /\ new \notin DOMAIN store["main"]
+    /\ store' = [store EXCEPT !["main"] = ReplaceOp(@, old, new)]
+    /\ last' = [NoLast EXCEPT !.ev = "Replace"]
+    /\ hist' = Append(hist, Call("Replace", "main", old, NoCut, 0, new, FALSE, ""))
+    /\ UNCHANGED << held, cutoff, suppress, varlist, gets, texts, maxtime, vl0 >>
+
 SetSuppress(b) ==
     /\ Len(hist) < MaxHist
     /\ suppress' = b
@@ -234,7 +274,8 @@ Extend(name) ==
 
 ReadStep ==
     \/ \E a \in Asks, c \in CutArgs : Get(a[1], a[2], c)
-    \/ \E i \in 1..Len(held), op \in {"append", "pop"} :
+    \/ \E g \in NGroups : GetNames(g)
+    \/ \E i \in 1..Len(held), op \in MutOps :
             \* histories only pop a list that has something to pop; the action itself is total (pop of an
             \* empty list = the caller does nothing), so a history can be replayed on a world whose series
             \* are shorter than the instance's
@@ -248,6 +289,7 @@ Next == \/ ReadStep
         \/ \E c \in CutArgs : c # cutoff /\ SetCutoff(c)
         \/ \E n \in ExtNames : Extend(n)
         \/ \E n \in MaxTimes : n # maxtime /\ SetMaxTime(n)
+        \/ \E r \in Renames : Replace(r[1], r[2])
 
 Spec == Init /\ [][Next]_vars
 
